@@ -1,3 +1,5 @@
+//go:build !verif_noints
+
 package main
 
 import (
